@@ -703,6 +703,14 @@ where
 	// if self sending, make sure to store 'initiator' keys
 	let context_res = w.get_private_context(keychain_mask, slate.id.as_bytes());
 
+	// a stored context that already names inputs is our own from an earlier run of this
+	// step (an issuer's context only holds its output): don't pay the invoice twice
+	if let Ok(c) = &context_res {
+		if !c.input_ids.is_empty() {
+			return Err(Error::TransactionAlreadyReceived(ret_slate.id.to_string()));
+		}
+	}
+
 	let mut context = tx::add_inputs_to_slate(
 		&mut *w,
 		keychain_mask,
